@@ -3,6 +3,10 @@
 package server
 
 import (
+	"errors"
+
+	"github.com/resgateio/resgate/server/codec"
+	"github.com/resgateio/resgate/server/rescache"
 	"github.com/resgateio/resgate/server/reserr"
 )
 
@@ -29,3 +33,61 @@ func VerifValidateAllowOrigin(s []string) error { return validateAllowOrigin(s) 
 
 // VerifExpandCID runs the connection's {cid} expansion for a connection with the given id.
 func VerifExpandCID(rid, cid string) string { return (&wsConn{cid: cid}).ExpandCID(rid) }
+
+// VerifNode describes one subscription of a synthetic subscription graph.
+type VerifNode struct {
+	RID        string
+	Err        *reserr.Error // non-nil: the subscription failed to load
+	IsModel    bool
+	Model      map[string]codec.Value
+	Collection []codec.Value
+}
+
+// VerifEncodeGET builds the subscription graph (references are resolved by resource id among the
+// nodes) and runs the named API encoder's EncodeGET on the first node.
+func VerifEncodeGET(encoding, apiPath string, nodes []VerifNode) ([]byte, error) {
+	f := apiEncoderFactories[encoding]
+	if f == nil {
+		return nil, errors.New("unknown encoding")
+	}
+	enc := f(Config{APIPath: apiPath})
+	subs := make(map[string]*Subscription, len(nodes))
+	for _, n := range nodes {
+		s := &Subscription{rid: n.RID, state: stateReady}
+		if n.Err != nil {
+			s.err = n.Err
+		} else if n.IsModel {
+			s.typ = rescache.TypeModel
+			s.model = &rescache.Model{Values: n.Model}
+		} else {
+			s.typ = rescache.TypeCollection
+			s.collection = &rescache.Collection{Values: n.Collection}
+		}
+		subs[n.RID] = s
+	}
+	for _, n := range nodes {
+		if n.Err != nil {
+			continue
+		}
+		s := subs[n.RID]
+		add := func(v codec.Value) {
+			if v.Type == codec.ValueTypeReference {
+				if s.refs == nil {
+					s.refs = make(map[string]*reference)
+				}
+				if r := s.refs[v.RID]; r != nil {
+					r.count++
+				} else {
+					s.refs[v.RID] = &reference{sub: subs[v.RID], count: 1}
+				}
+			}
+		}
+		for _, v := range n.Model {
+			add(v)
+		}
+		for _, v := range n.Collection {
+			add(v)
+		}
+	}
+	return enc.EncodeGET(subs[nodes[0].RID])
+}
